@@ -1042,6 +1042,10 @@ _ODD = []
 
 
 def odd_paths_enabled():
+    return True     # repaired in /repo ('fix: a file path after an aggregated reference may contain ...'): ordinary inputs now
+
+
+def _odd_paths_enabled_before_the_repair():
     if not _ODD:
         try:
             with open(os.path.join(os.path.dirname(os.path.dirname(os.path.abspath(__file__))),
